@@ -14,94 +14,114 @@ by structural recursion over type descriptors, EVERY derivable type satisfies `T
 namespace Derive
 
 /-- applying the empty diff: what a follower equivalent to `a` looks like against `a` itself -/
-theorem TySpec.stay {S : TySem} {R : TyRel} (h : TySpec S R) (a f : Val) (ha : R.wt a) (hf : R.wt f) (he : R.equiv a f) :
-    R.post f a f := by
+theorem TySpec.stay {S : TySem} {R : TyRel} (h : TySpec S R) (a f : Val) (ha : R.wt a) (hf : R.wt f) (he : R.equiv a f)
+    (hr : veq a a = true) : R.post f a f := by
   obtain ⟨r, h1, _, h3⟩ := h.follow a a f ha ha hf he
-  rw [h.self a ha] at h1
+  rw [h.self a ha hr] at h1
   simp only [TySem.apply, Except.ok.injEq] at h1
   subst h1; exact h3
 
-/-! ### plain fields -/
+/-- a follower equivalent to `a`, when `a == b` under the derived `PartialEq`: nothing is sent and the follower stays -/
+theorem TySpec.veq_stay {S : TySem} {R : TyRel} (h : TySpec S R) (a b f : Val) (ha : R.wt a) (hb : R.wt b) (hf : R.wt f)
+    (hv : veq a b = true) (he : R.equiv a f) : R.post f b f := by
+  obtain ⟨r, h1, _, h3⟩ := h.follow a b f ha hb hf he
+  rw [h.veq_nodiff a b ha hb hv] at h1
+  simp only [TySem.apply, Except.ok.injEq] at h1
+  subst h1; exact h3
+
+/-! ### plain fields (compared with the field type's own `==`) -/
 
 def plainRel : FieldRel where
   wt _ := True
-  same a b := a = b
-  equiv a f := a = f
-  post _ b r := r = b
+  same a b := veq a b = true
+  equiv a f := a = f ∨ veq a f = true
+  post f b r := r = b ∨ (r = f ∧ veq b f = true)
 
 theorem plain_spec : FieldSpec plainField plainRel where
-  refl _ _ := rfl
-  same_refl _ _ := rfl
-  none_iff a b _ _ := by simp [plainField, plainRel]
+  refl _ _ := .inl rfl
+  same_refl _ _ h := h
+  none_iff a b _ _ := by
+    simp only [plainField, plainRel]
+    cases veq a b <;> simp
   follow a b f p _ _ _ _ hd := by
     simp only [plainField] at hd
     split at hd
-    · cases hd; exact ⟨b, rfl, trivial, rfl⟩
     · cases hd
+    · cases hd; exact ⟨b, rfl, trivial, .inl rfl⟩
   stay a b f _ _ _ he hd := by
     simp only [plainField] at hd
     split at hd
-    · cases hd
     · rename_i h
-      simp only [plainRel] at he ⊢
-      have : a = b := by simpa using h
-      rw [← he, this]
-  post_equiv _ _ _ _ _ _ h := by simp only [plainRel] at h ⊢; exact h.symm
+      rcases he with rfl | he
+      · exact .inr ⟨rfl, veq_symm' h⟩
+      · exact .inr ⟨rfl, veq_tri h he⟩
+    · cases hd
+  post_equiv f b r _ _ _ hp := by
+    rcases hp with rfl | ⟨rfl, h⟩
+    · exact .inl rfl
+    · exact .inr h
   ref_eq _ _ := rfl
+  veq_same _ _ _ _ h := h
 
-/-! ### enums -/
+/-! ### enums (whole-value comparison with the enum's own `==`) -/
 
 def enumRel : TyRel where
   wt _ := True
-  equiv a f := a = f
-  post _ b r := r = b
+  equiv a f := a = f ∨ veq a f = true
+  post f b r := r = b ∨ (r = f ∧ veq b f = true)
 
 theorem enum_spec : TySpec enumSem enumRel where
-  refl _ _ := rfl
-  self a _ := by simp [enumSem]
+  refl _ _ := .inl rfl
+  self a _ ha := by simp only [enumSem]; rw [show veq a a = true from ha]; rfl
   follow a b f _ _ _ he := by
-    simp only [enumRel] at he ⊢
-    subst he
-    by_cases h : a = b
-    · subst h; exact ⟨a, by simp [enumSem, TySem.apply], trivial, rfl⟩
-    · exact ⟨b, by simp [enumSem, TySem.apply, h], trivial, rfl⟩
-  post_equiv _ _ _ _ _ _ h := by simp only [enumRel] at h ⊢; exact h.symm
+    by_cases h : veq a b = true
+    · refine ⟨f, by simp [enumSem, TySem.apply, h], trivial, .inr ⟨rfl, ?_⟩⟩
+      rcases he with rfl | he
+      · exact veq_symm' h
+      · exact veq_tri h he
+    · exact ⟨b, by simp [enumSem, TySem.apply, h], trivial, .inl rfl⟩
+  post_equiv f b r _ _ _ hp := by
+    rcases hp with rfl | ⟨rfl, h⟩
+    · exact .inl rfl
+    · exact .inr h
   ref_eq _ _ := rfl
+  veq_nodiff a b _ _ h := by simp [enumSem, h]
 
 /-! ### nested (`recurse`) fields -/
 
 def recurseRel (R : TyRel) : FieldRel where
   wt := R.wt
-  same a b := a = b
+  same a b := veq a b = true
   equiv := R.equiv
   post := R.post
 
 theorem recurse_spec (S : TySem) (R : TyRel) (hS : TySpec S R) : FieldSpec (recurseField S) (recurseRel R) where
   refl := hS.refl
-  same_refl _ _ := rfl
-  none_iff a b _ _ := by simp [recurseField, recurseRel]
+  same_refl _ _ h := h
+  none_iff a b _ _ := by
+    simp only [recurseField, recurseRel]
+    cases veq a b <;> simp
   follow a b f p ha hb hf he hd := by
     simp only [recurseField] at hd
     split at hd
     · cases hd
-      exact hS.follow a b f ha hb hf he
     · cases hd
-  stay a b f ha _ hf he hd := by
+      exact hS.follow a b f ha hb hf he
+  stay a b f ha hb hf he hd := by
     simp only [recurseField] at hd
     split at hd
-    · cases hd
     · rename_i h
-      have : a = b := by simpa using h
-      subst this
-      exact hS.stay a f ha hf he
+      exact hS.veq_stay a b f ha hb hf h he
+    · cases hd
   post_equiv := hS.post_equiv
   ref_eq a b := by simp only [recurseField, hS.ref_eq]
+  veq_same _ _ _ _ h := h
 
 /-! ### `recurse` on an `Option` -/
 
 def roptRel (R : TyRel) : FieldRel where
   wt v := v = .onone ∨ ∃ x, v = .osome x ∧ R.wt x
-  same a b := a = b
+  same a b := veq a b = true
   equiv a f := (a = .onone ∧ f = .onone) ∨ ∃ x y, a = .osome x ∧ f = .osome y ∧ R.equiv x y
   post f b r := (b = .onone ∧ r = .onone) ∨
     ∃ y, b = .osome y ∧ ((f = .onone ∧ r = .osome y) ∨ ∃ x z, f = .osome x ∧ r = .osome z ∧ R.post x y z)
@@ -111,9 +131,12 @@ theorem ropt_spec (S : TySem) (R : TyRel) (hS : TySpec S R) : FieldSpec (recurse
     rcases ha with rfl | ⟨x, rfl, hx⟩
     · exact .inl ⟨rfl, rfl⟩
     · exact .inr ⟨x, x, rfl, rfl, hS.refl x hx⟩
-  same_refl _ _ := rfl
+  same_refl _ _ h := h
   none_iff a b ha hb := by
-    rcases ha with rfl | ⟨x, rfl, _⟩ <;> rcases hb with rfl | ⟨y, rfl, _⟩ <;> simp [recurseOptField, roptRel]
+    rcases ha with rfl | ⟨x, rfl, _⟩ <;> rcases hb with rfl | ⟨y, rfl, _⟩ <;> simp only [recurseOptField, roptRel, veq]
+    all_goals first
+      | simp; done
+      | (cases veq x y <;> simp)
   follow a b f p ha hb hf he hd := by
     rcases he with ⟨rfl, rfl⟩ | ⟨x, x', rfl, rfl, hxx⟩
     · rcases hb with rfl | ⟨y, rfl, hy⟩
@@ -130,19 +153,24 @@ theorem ropt_spec (S : TySem) (R : TyRel) (hS : TySpec S R) : FieldSpec (recurse
       · simp only [recurseOptField] at hd
         split at hd
         · cases hd
+        · cases hd
           obtain ⟨z, hz1, hz2, hz3⟩ := hS.follow x y x' hx hy hx' hxx
           refine ⟨.osome z, ?_, .inr ⟨z, rfl, hz2⟩, .inr ⟨y, rfl, .inr ⟨x', z, rfl, rfl, hz3⟩⟩⟩
           simp only [recurseOptField, applyMut_eq_apply, hz1]
-        · cases hd
   stay a b f ha hb hf he hd := by
-    have hab : a = b := by
-      rcases ha with rfl | ⟨x, rfl, _⟩ <;> rcases hb with rfl | ⟨y, rfl, _⟩ <;> simp_all [recurseOptField]
-    subst hab
     rcases he with ⟨rfl, rfl⟩ | ⟨x, x', rfl, rfl, hxx⟩
-    · exact .inl ⟨rfl, rfl⟩
+    · rcases hb with rfl | ⟨y, rfl, _⟩
+      · exact .inl ⟨rfl, rfl⟩
+      · simp [recurseOptField] at hd
     · have hx : R.wt x := by rcases ha with h | ⟨_, h, hw⟩; cases h; cases h; exact hw
       have hx' : R.wt x' := by rcases hf with h | ⟨_, h, hw⟩; cases h; cases h; exact hw
-      exact .inr ⟨x, rfl, .inr ⟨x', x', rfl, rfl, hS.stay x x' hx hx' hxx⟩⟩
+      rcases hb with rfl | ⟨y, rfl, hy⟩
+      · simp [recurseOptField] at hd
+      · simp only [recurseOptField] at hd
+        split at hd
+        · rename_i h
+          exact .inr ⟨y, rfl, .inr ⟨x', x', rfl, rfl, hS.veq_stay x y x' hx hy hx' h hxx⟩⟩
+        · cases hd
   post_equiv f b r hf hb hr hp := by
     rcases hp with ⟨rfl, rfl⟩ | ⟨y, rfl, h⟩
     · exact .inl ⟨rfl, rfl⟩
@@ -154,6 +182,7 @@ theorem ropt_spec (S : TySem) (R : TyRel) (hS : TySpec S R) : FieldSpec (recurse
         exact .inr ⟨y, z, rfl, rfl, hS.post_equiv x y z hx hy hz hpz⟩
   ref_eq a b := by
     cases a <;> cases b <;> simp only [recurseOptField, hS.ref_eq]
+  veq_same _ _ _ _ h := h
 
 /-! ### ordered collections -/
 
@@ -174,7 +203,7 @@ theorem costs_eq : costs = C07.costs := rfl
 
 theorem ordered_spec : FieldSpec orderedField orderedRel where
   refl _ _ := rfl
-  same_refl _ _ := rfl
+  same_refl _ _ _ := rfl
   none_iff a b ha hb := by
     obtain ⟨al, rfl⟩ := ha
     obtain ⟨bl, rfl⟩ := hb
@@ -209,6 +238,11 @@ theorem ordered_spec : FieldSpec orderedField orderedRel where
     rw [hd]
   post_equiv _ _ _ _ _ _ h := by simp only [orderedRel] at h ⊢; exact h.symm
   ref_eq _ _ := rfl
+  veq_same a b ha hb h := by
+    obtain ⟨al, rfl⟩ := ha
+    obtain ⟨bl, rfl⟩ := hb
+    simp only [veq, beq_iff_eq] at h
+    simp [orderedRel, h]
 
 /-! ### unordered collections (multisets) -/
 
@@ -227,7 +261,7 @@ theorem uarr_apply_congr (base base' : List Nat) (d : UArr.Diff Nat) (h : ∀ x,
 
 theorem unord_spec : FieldSpec unordField unordRel where
   refl _ _ _ := rfl
-  same_refl _ _ _ := rfl
+  same_refl _ _ _ _ := rfl
   none_iff a b _ _ := by
     simp only [unordField, Option.map_eq_none_iff, unordRel]
     exact C11.absent_iff (asList a) (asList b)
@@ -251,6 +285,11 @@ theorem unord_spec : FieldSpec unordField unordRel where
     obtain ⟨l, rfl, hl⟩ := hp
     intro x; exact (hl x).symm
   ref_eq _ _ := rfl
+  veq_same a b ha hb h := by
+    obtain ⟨al, rfl⟩ := ha
+    obtain ⟨bl, rfl⟩ := hb
+    simp only [veq, beq_iff_eq] at h
+    subst h; intro x; rfl
 
 /-! ### flat maps (both `map_equality` modes: with unique keys the two collectors coincide) -/
 
@@ -283,7 +322,7 @@ theorem dedupKeys_unique (l : List (Nat × Nat)) (hu : UMap.UniqueKeys l) : dedu
 
 theorem map_spec (ko : Bool) : FieldSpec (mapField ko) mapRel where
   refl _ _ _ := rfl
-  same_refl _ _ _ := rfl
+  same_refl _ _ _ _ := rfl
   none_iff a b ha hb := by
     obtain ⟨al, rfl, hal⟩ := ha
     obtain ⟨bl, rfl, hbl⟩ := hb
@@ -313,6 +352,11 @@ theorem map_spec (ko : Bool) : FieldSpec (mapField ko) mapRel where
     obtain ⟨l, rfl, _, hl⟩ := hp
     intro k; exact (hl k).symm
   ref_eq _ _ := rfl
+  veq_same a b ha hb h := by
+    obtain ⟨al, rfl, _⟩ := ha
+    obtain ⟨bl, rfl, _⟩ := hb
+    simp only [veq, beq_iff_eq] at h
+    subst h; intro k; rfl
 
 /-! ### recursive maps (values derive `Difference` themselves) -/
 
@@ -331,7 +375,7 @@ def rmWt (R : TyRel) (v : Val) : Prop :=
 def recMapRel (ko : Bool) (R : TyRel) : FieldRel where
   wt := rmWt R
   same a b := (∀ k, (kget (asRMap a) k).isSome = (kget (asRMap b) k).isSome) ∧
-    (ko = false → ∀ k pv cv, kget (asRMap a) k = some pv → kget (asRMap b) k = some cv → pv = cv)
+    (ko = false → ∀ k pv cv, kget (asRMap a) k = some pv → kget (asRMap b) k = some cv → veq pv cv = true)
   equiv a f := (∀ k, (kget (asRMap a) k).isSome = (kget (asRMap f) k).isSome) ∧
     (ko = false → ∀ k av fv, kget (asRMap a) k = some av → kget (asRMap f) k = some fv → R.equiv av fv)
   post f b r := (∀ k, (kget (asRMap r) k).isSome = (kget (asRMap b) k).isSome) ∧
@@ -347,7 +391,7 @@ theorem length_eq_of_keys (a b : KV Nat Val) (ha : NoDupK a) (hb : NoDupK b)
   have := hp.length_eq
   simpa [keys] using this
 
-theorem veq_iff (S : TySem) (a b : Val) : (nestedOf S).veq a b = true ↔ a = b := by simp [nestedOf]
+theorem nested_veq (S : TySem) (a b : Val) : (nestedOf S).veq a b = veq a b := rfl
 
 /-- the in-place patch of a retained key's value, in key-and-value mode -/
 theorem patch_ok (S : TySem) (R : TyRel) (hS : TySpec S R) (pv cv fv : Val) (hp : R.wt pv) (hc : R.wt cv) (hf : R.wt fv)
@@ -357,11 +401,10 @@ theorem patch_ok (S : TySem) (R : TyRel) (hS : TySpec S R) (pv cv fv : Val) (hp 
   obtain ⟨z, hz1, hz2, hz3⟩ := hS.follow pv cv fv hp hc hf he
   have hz : S.applyMut fv (S.diffRef pv cv) = .ok z := by rw [applyMut_eq_apply, hS.ref_eq]; exact hz1
   refine ⟨⟨z, hz⟩, ?_⟩
-  by_cases h : pv = cv
-  · subst h
-    have : patchOf (nestedOf S) false pv pv fv = fv := by simp [patchOf, nestedOf]
+  by_cases h : veq pv cv = true
+  · have : patchOf (nestedOf S) false pv cv fv = fv := by simp [patchOf, nestedOf, h]
     rw [this]
-    exact ⟨hf, hS.stay pv fv hp hf he⟩
+    exact ⟨hf, hS.veq_stay pv cv fv hp hc hf h he⟩
   · have : patchOf (nestedOf S) false pv cv fv = z := by
       simp only [patchOf, nestedOf, Bool.not_false, Bool.true_and, hz]
       simp [h]
@@ -392,6 +435,44 @@ theorem rmapPanics_false (S : TySem) (fl : KV Nat Val) (hfl : NoDupK fl) (es : L
       · obtain ⟨z, hz⟩ := h k d v he this.symm
         simp [hz]
 
+theorem veqm_refl : ∀ (m : RMapV), (∀ kv ∈ m.toList, veq kv.2 kv.2 = true) → veqm m m = true
+  | .nil, _ => rfl
+  | .cons k v rest, h => by
+    simp only [veqm, Bool.and_eq_true, beq_self_eq_true, true_and]
+    exact ⟨h (k, v) (by simp [RMapV.toList]), veqm_refl rest (fun kv hkv => h kv (by simp [RMapV.toList, hkv]))⟩
+
+/-- `==` maps agree key by key -/
+theorem veqm_kget : ∀ (a b : RMapV), veqm a b = true → ∀ k,
+    match kget a.toList k, kget b.toList k with
+    | some x, some y => veq x y = true
+    | none, none => True
+    | _, _ => False
+  | .nil, .nil, _, k => by simp [RMapV.toList, kget]
+  | .nil, .cons _ _ _, h, _ => by simp [veqm] at h
+  | .cons _ _ _, .nil, h, _ => by simp [veqm] at h
+  | .cons ka va ra, .cons kb vb rb, h, k => by
+    simp only [veqm, Bool.and_eq_true, beq_iff_eq] at h
+    obtain ⟨⟨rfl, hv⟩, hr⟩ := h
+    simp only [RMapV.toList, kget]
+    by_cases hk : ka = k
+    · simp [hk, hv]
+    · simp only [hk, if_false]
+      exact veqm_kget ra rb hr k
+
+theorem recmap_veq_same (ko : Bool) (R : TyRel) (a b : Val) (ha : (recMapRel ko R).wt a) (hb : (recMapRel ko R).wt b)
+    (h : veq a b = true) : (recMapRel ko R).same a b := by
+  obtain ⟨am, rfl, _, _⟩ := ha
+  obtain ⟨bm, rfl, _, _⟩ := hb
+  simp only [veq] at h
+  have hk := veqm_kget am bm h
+  simp only [recMapRel, asRMap]
+  refine ⟨fun k => ?_, fun _ k pv cv h1 h2 => ?_⟩
+  · have := hk k
+    cases h1 : kget am.toList k <;> cases h2 : kget bm.toList k <;> simp_all
+  · have := hk k
+    rw [h1, h2] at this
+    exact this
+
 theorem recmap_spec (ko : Bool) (S : TySem) (R : TyRel) (hS : TySpec S R) :
     FieldSpec (recMapField ko S) (recMapRel ko R) where
   refl a ha := by
@@ -399,7 +480,7 @@ theorem recmap_spec (ko : Bool) (S : TySem) (R : TyRel) (hS : TySpec S R) :
     refine ⟨fun _ => rfl, fun _ k av fv h1 h2 => ?_⟩
     rw [h1] at h2; cases h2
     exact hS.refl av (hv k av h1)
-  same_refl a _ := ⟨fun _ => rfl, fun _ k pv cv h1 h2 => by rw [h1] at h2; cases h2; rfl⟩
+  same_refl a ha h := recmap_veq_same ko R a a ha ha h
   none_iff a b ha hb := by
     obtain ⟨am, rfl, han, _⟩ := ha
     obtain ⟨bm, rfl, hbn, _⟩ := hb
@@ -413,13 +494,13 @@ theorem recmap_spec (ko : Bool) (S : TySem) (R : TyRel) (hS : TySpec S R) :
         · rename_i hemp
           have hnil : entriesOf (nestedOf S) ko am.toList bm.toList = [] := by simpa using hemp
           obtain ⟨h1, h2⟩ := (entries_nil_iff _ ko _ _ han).mp hnil
-          exact ⟨h1, fun hko k pv cv ha hb => (veq_iff S pv cv).mp (h2 hko k pv cv ha hb)⟩
+          exact ⟨h1, fun hko k pv cv ha hb => h2 hko k pv cv ha hb⟩
         · cases h
     · rintro ⟨h1, h2⟩
       have hlen := length_eq_of_keys _ _ han hbn h1
       rw [if_neg (by omega)]
       have hnil : entriesOf (nestedOf S) ko am.toList bm.toList = [] :=
-        (entries_nil_iff _ ko _ _ han).mpr ⟨h1, fun hko k pv cv ha hb => (veq_iff S pv cv).mpr (h2 hko k pv cv ha hb)⟩
+        (entries_nil_iff _ ko _ _ han).mpr ⟨h1, fun hko k pv cv ha hb => h2 hko k pv cv ha hb⟩
       simp [hnil]
   follow a b f p ha hb hf he hd := by
     obtain ⟨am, rfl, han, hav⟩ := ha
@@ -540,7 +621,7 @@ theorem recmap_spec (ko : Bool) (S : TySem) (R : TyRel) (hS : TySpec S R) :
     simp only [asRMap] at hek hev
     -- `diff = none` means `same`
     have hsame : (∀ k, (kget am.toList k).isSome = (kget bm.toList k).isSome) ∧
-        (ko = false → ∀ k pv cv, kget am.toList k = some pv → kget bm.toList k = some cv → pv = cv) := by
+        (ko = false → ∀ k pv cv, kget am.toList k = some pv → kget bm.toList k = some cv → veq pv cv = true) := by
       simp only [recMapField, asRMap, Option.map_eq_none_iff] at hd
       rw [hashcmp_eq _ _ _ han hbn] at hd
       split at hd
@@ -549,7 +630,7 @@ theorem recmap_spec (ko : Bool) (S : TySem) (R : TyRel) (hS : TySpec S R) :
         · rename_i hemp
           have hnil : entriesOf (nestedOf S) ko am.toList bm.toList = [] := by simpa using hemp
           obtain ⟨h1, h2⟩ := (entries_nil_iff _ ko _ _ han).mp hnil
-          exact ⟨h1, fun hko k pv cv ha hb => (veq_iff S pv cv).mp (h2 hko k pv cv ha hb)⟩
+          exact ⟨h1, fun hko k pv cv ha hb => h2 hko k pv cv ha hb⟩
         · cases hd
     simp only [recMapRel, asRMap]
     refine ⟨fun k => by rw [← hek k, hsame.1 k], fun k cv rv hbk hfk => .inr ⟨rv, hfk, ?_⟩⟩
@@ -562,9 +643,8 @@ theorem recmap_spec (ko : Bool) (S : TySem) (R : TyRel) (hS : TySpec S R) :
       cases hak : kget am.toList k with
       | none => rw [hak] at hs; cases hs
       | some pv =>
-        have : pv = cv := hsame.2 rfl k pv cv hak hbk
-        subst this
-        exact hS.stay pv rv (hav k pv hak) (hfv k rv hfk) (hev rfl k pv rv hak hfk)
+        have hvq : veq pv cv = true := hsame.2 rfl k pv cv hak hbk
+        exact hS.veq_stay pv cv rv (hav k pv hak) (hbv k cv hbk) (hfv k rv hfk) hvq (hev rfl k pv rv hak hfk)
   post_equiv f b r hf hb hr hp := by
     obtain ⟨bm, rfl, _, hbv⟩ := hb
     obtain ⟨fm, rfl, _, hfv⟩ := hf
@@ -579,6 +659,7 @@ theorem recmap_spec (ko : Bool) (S : TySem) (R : TyRel) (hS : TySpec S R) :
       simp only [Bool.false_eq_true, if_false] at h
       exact hS.post_equiv fv cv rv (hfv k fv hfk) (hbv k cv hbk) (hrv k rv hrk) h
   ref_eq _ _ := rfl
+  veq_same := recmap_veq_same ko R
 
 end RecMap
 
